@@ -295,6 +295,27 @@ Proof.
   inversion He; subst e. cbn [pe_hamming]. apply agreement_fixed_zeros.
 Qed.
 
+Lemma zip_eqb_complement : forall p q, zip_with Bool.eqb p (complement q) = zip_with xorb p q.
+Proof.
+  unfold complement. induction p as [|a p IH]; intros [|b q]; try reflexivity.
+  cbn [map zip_with]. rewrite IH. destruct a, b; reflexivity.
+Qed.
+
+Lemma agreement_fixed_alt_eq : forall p0 p1,
+  agreement_fixed_alt (p0, complement p0) (p1, complement p1)
+  = agreement_fixed (p0, complement p0) (p1, complement p1).
+Proof.
+  intros. unfold agreement_fixed_alt, agreement_fixed, agreement_with, orientation_fixed. cbn [fst snd].
+  rewrite zip_eqb_complement. reflexivity.
+Qed.
+
+Lemma agreement_fixed_alt_matches_hamming : forall p0 p1 e, length p0 = length p1 ->
+  compare_block_dip (p0, complement p0) (p1, complement p1) = Some e ->
+  zeros (agreement_fixed_alt (p0, complement p0) (p1, complement p1)) = pe_hamming e.
+Proof.
+  intros p0 p1 e Hl He. rewrite agreement_fixed_alt_eq. apply agreement_fixed_matches_hamming; assumption.
+Qed.
+
 Definition f1_p0 : hap := [false; false; false].
 Definition f1_p1 : hap := [false; false; true].
 
